@@ -315,10 +315,11 @@ def run(ctx):
         for ft in feats:
             ctx.count("gen feature " + ft)
         seeds = [ctx.rng.randrange(1, 2 ** 31) for _ in range(nseeds)]
-        items.append(({"src": "\n".join(lines)}, ["default"] + ["perm:%d" % s for s in seeds], 20))
+        items.append(({"src": "\n".join(lines)}, ["default"] + ["perm:%d" % s for s in seeds], ctx.n(12, 20)))
         labels.append("generated#%d" % i)
     ctx.cov["generated_programs"] = nprog
     process(ctx, items, labels, "generated", totals, shrink_budget=ctx.n(1, 2))
+    ctx.log("generated done")
 
     # ---- acyclic stream + directed cases (shared multi-clause subgoal re-called under a negation)
     ndag = ctx.n(15, 200)
@@ -335,6 +336,7 @@ def run(ctx):
         labels.append("acyclic#%d" % i)
     ctx.cov["acyclic_programs"] = ndag
     process(ctx, items, labels, "acyclic", totals, shrink_budget=ctx.n(1, 2))
+    ctx.log("acyclic + directed done")
 
     run_model_tie(ctx)
     ctx.cov["schedule_exploration"] = {"batches_seen": totals["batches"], "all_e_batches": totals["all_e"],
